@@ -1,10 +1,168 @@
 package main
 
-// runConcurrent is replaced further down the file history by the real stress runner.
-func runConcurrent(c Case, p pool) []string {
-	var tr []string
-	for _, o := range c.Ops {
-		tr = append(tr, "("+opCoq(o)+", "+safeDo(p, o)+")")
+// Concurrent stress (C01 "under concurrent callers"): goroutines drive ONE real pool object, each
+// with its own holders; afterwards every holder that should hold a unit asks again.  The final
+// snapshot (holder, last value returned during the stress, value returned afterwards) and the pool's
+// statistics go to Coq, where the Spec invariant is evaluated on them (Model/PoolCheck.v run_conc):
+// units pairwise distinct, every unit usable, same value as before, allocated figure = number of
+// holders.  This is sampled validation of the lock discipline, not a proof about interleavings.
+
+import (
+	"fmt"
+	"strings"
+	"sync"
+
+	"verifharness/vh"
+)
+
+var concTag = map[string]int{"dhcp4pool": 1, "v6addr": 2, "v6prefix": 3, "pppoe": 4, "localpool": 5, "bitmap": 6, "epoch": 7}
+
+func concNums(c Case) []string {
+	switch c.Kind {
+	case "dhcp4pool":
+		return []string{c.Base, itoa(c.PPL), itoa(c.ResLo), itoa(c.ResHi), c.Gw}
+	case "v6addr":
+		return []string{c.Base, itoa(c.PPL)}
+	case "v6prefix":
+		return []string{c.Base, itoa(c.PPL), itoa(c.PL)}
+	case "pppoe":
+		return []string{c.Base, itoa(c.PPL), c.Gw, "1"}
+	case "localpool":
+		return []string{c.Base, itoa(c.PPL), c.Gw}
+	case "bitmap":
+		return []string{c.Base, itoa(c.Bits), itoa(c.PPL), itoa(c.PL)}
+	case "epoch":
+		return []string{c.Base, itoa(c.PPL), itoa(c.PL), fmt.Sprint(c.Grace)}
 	}
-	return tr
+	panic("no concurrent stress for kind " + c.Kind)
 }
+
+// runConc executes the case's ops split round-robin by holder number over c.Conc goroutines.
+func runConc(c Case, p pool) vh.Case {
+	g := c.Conc
+	per := make([][]Op, g)
+	for _, o := range c.Ops {
+		per[o.H%g] = append(per[o.H%g], o)
+	}
+	type hstate struct {
+		last string // last OUnit value returned to the holder by an alloc ("" = none / released / refused)
+	}
+	states := make([]map[int]*hstate, g)
+	var wg sync.WaitGroup
+	start := make(chan struct{})
+	for i := 0; i < g; i++ {
+		states[i] = map[int]*hstate{}
+		wg.Add(1)
+		go func(i int) {
+			defer wg.Done()
+			<-start
+			for _, o := range per[i] {
+				out := safeDo(p, o)
+				st := states[i][o.H]
+				if st == nil {
+					st = &hstate{}
+					states[i][o.H] = st
+				}
+				switch o.K {
+				case "alloc":
+					if strings.HasPrefix(out, "OUnit ") {
+						st.last = out[6:]
+					} else {
+						st.last = ""
+					}
+				case "rel":
+					st.last = ""
+				}
+			}
+		}(i)
+	}
+	close(start)
+	wg.Wait()
+	var rows []string
+	nh := 0
+	for i := 0; i < g; i++ {
+		for h, st := range states[i] {
+			if st.last == "" {
+				continue
+			}
+			out := safeDo(p, Op{K: "alloc", H: h})
+			final := "4294967295999" // not a unit: error after the stress
+			if strings.HasPrefix(out, "OUnit ") {
+				final = out[6:]
+			}
+			rows = append(rows, fmt.Sprintf("(%d, %s, %s)", h, st.last, final))
+			nh++
+		}
+	}
+	// sort for a stable case text
+	sortStrings(rows)
+	stats := "(0, 0)"
+	if c.Kind == "bitmap" || c.Kind == "dhcp4pool" || c.Kind == "localpool" || c.Kind == "epoch" {
+		if out := safeDo(p, Op{K: "stats"}); strings.HasPrefix(out, "OStats ") {
+			f := strings.Fields(out)
+			stats = fmt.Sprintf("(%s, 1)", f[1])
+		}
+	}
+	coq := fmt.Sprintf("((%d, %s), %s, %s)", concTag[c.Kind], vh.List(concNums(c)), vh.List(rows), stats)
+	return vh.Case{Coq: coq, Desc: c, Tags: []string{"concurrent", "kind:" + c.Kind, fmt.Sprintf("goroutines:%d", g)}}
+}
+
+func sortStrings(l []string) {
+	for i := 1; i < len(l); i++ {
+		for j := i; j > 0 && l[j] < l[j-1]; j-- {
+			l[j], l[j-1] = l[j-1], l[j]
+		}
+	}
+}
+
+func genConc(r *vh.Rng, th bool) []Case {
+	var out []Case
+	n := 3
+	if th {
+		n = 40
+	}
+	for _, kn := range []string{"bitmap", "epoch", "dhcp4pool", "v6addr", "v6prefix", "pppoe", "localpool"} {
+		for i := 0; i < n; i++ {
+			rr := r.Fork()
+			d := 3 + rr.Intn(4)
+			var c Case
+			switch kn {
+			case "bitmap":
+				c = Case{Kind: kn, Bits: 32, PPL: 32 - d, PL: 32}
+				c.Base = randBase(rr, 32, c.PPL).String()
+			case "epoch":
+				c = Case{Kind: kn, Bits: 32, PPL: 32 - d, PL: 32, Grace: 1}
+				c.Base = randBase(rr, 32, c.PPL).String()
+			default:
+				c, _, _ = flCase(rr, kn, d)
+			}
+			c.Conc = 4 + rr.Intn(5)
+			nh := c.Conc * (2 + rr.Intn(4))
+			nops := 200 + rr.Intn(400)
+			for j := 0; j < nops; j++ {
+				h := rr.Intn(nh)
+				k := "alloc"
+				if rr.Chance(2, 5) {
+					k = "rel"
+				}
+				if kn == "epoch" && rr.Chance(1, 6) {
+					k = "renew"
+				}
+				if kn == "dhcp4pool" && k == "rel" {
+					continue // dhcp.Pool releases by address; the stress keeps to Allocate (Release is covered sequentially)
+				}
+				c.Ops = append(c.Ops, Op{K: k, H: h})
+			}
+			c.Origin = "concurrent"
+			out = append(out, c)
+		}
+	}
+	return out
+}
+
+func init() {
+	register(&kind{name: "concurrent", header: "run_conc", gen: genConc})
+}
+
+// runConcurrent is kept for the sequential path's signature (unused traces).
+func runConcurrent(c Case, p pool) []string { return nil }
